@@ -42,6 +42,38 @@ pub fn search(rng: &mut Rng, budget: u64, fails: &mut Vec<Failure>) {
         }
         if fails.len() >= 5 { return; }
     }
+    // year-month arithmetic: whole years and months from the first of the month; week and day units are refused
+    for _ in 0..(budget / 100).max(40) {
+        let (y, m) = (rng.range(-200_000, 200_000) as i32, rng.range(1, 12) as u8);
+        let Ok(ym) = PlainYearMonth::new_with_overflow(y, m, None, Calendar::default(), ArithmeticOverflow::Reject) else { continue };
+        let (dy, dm) = (rng.range(-50, 50), rng.range(-40, 40));
+        let same_sign = (dy >= 0 && dm >= 0) || (dy <= 0 && dm <= 0);
+        if !same_sign { continue; }
+        let f = |v: i128| temporal_rs::primitive::FiniteF64::try_from(v as f64).unwrap();
+        let z = temporal_rs::primitive::FiniteF64::default();
+        let Ok(d) = temporal_rs::Duration::new(f(dy), f(dm), z, z, z, z, z, z, z, z) else { continue };
+        let total = (y as i128) * 12 + (m as i128 - 1);
+        for sub in [false, true] {
+            let t = if sub { total - (dy * 12 + dm) } else { total + (dy * 12 + dm) };
+            let (wy, wm) = (t.div_euclid(12), t.rem_euclid(12) + 1);
+            let input = format!("PlainYearMonth({y}-{m}).{}(P{dy}Y{dm}M)", if sub { "subtract" } else { "add" });
+            match catch_unwind(|| if sub { ym.subtract(&d, ArithmeticOverflow::Constrain) } else { ym.add(&d, ArithmeticOverflow::Constrain) }) {
+                Ok(Ok(r)) => if (r.iso_year() as i128, r.iso_month() as i128) != (wy, wm) { fails.push(Failure { what: "PlainYearMonth add/subtract".into(), input, expected: format!("{wy}-{wm}"), observed: format!("{}-{}", r.iso_year(), r.iso_month()) }) },
+                Ok(Err(_)) => fails.push(Failure { what: "PlainYearMonth add/subtract refused whole years and months inside the limits".into(), input, expected: format!("{wy}-{wm}"), observed: "Err".into() }),
+                Err(_) => fails.push(Failure { what: "PlainYearMonth add/subtract panicked".into(), input, expected: "value or error".into(), observed: "panic".into() }),
+            }
+        }
+        for (w, dd) in [(1i128, 0i128), (0, 1), (0, -31), (-1, 0)] {
+            let Ok(dw) = temporal_rs::Duration::new(z, z, f(w), f(dd), z, z, z, z, z, z) else { continue };
+            for sub in [false, true] {
+                let input = format!("PlainYearMonth({y}-{m}).{}(P{w}W{dd}D)", if sub { "subtract" } else { "add" });
+                if let Ok(Ok(r)) = catch_unwind(|| if sub { ym.subtract(&dw, ArithmeticOverflow::Constrain) } else { ym.add(&dw, ArithmeticOverflow::Constrain) }) {
+                    fails.push(Failure { what: "PlainYearMonth add/subtract accepted week / day units".into(), input, expected: "RangeError".into(), observed: format!("{}-{}", r.iso_year(), r.iso_month()) });
+                }
+            }
+        }
+        if fails.len() >= 5 { return; }
+    }
     // with(): supplied fields win, the rest come from the receiver; constrain clamps, reject refuses (C17)
     for _ in 0..(budget / 100).max(40) {
         let (y, m, d) = (rng.range(1, 9000) as i32, rng.range(1, 12) as u8, rng.range(1, 28) as u8);
